@@ -1,118 +1,128 @@
-import OrsoVerif.Model.Validate
+import OrsoVerif.Lemmas.Validate
 /-!
 # C05 — Validation accepts exactly conforming records; append is atomic
 
-Property theorems about `Model/Validate.lean`.  They hold for every schema and record; the
-concrete facts about the type table (`True` is accepted for INTEGER, a float is not, …) are
-proved against the *generated* tables, so a change of `ORSO_TO_PYTHON_MAP` re-checks them.
+Property theorems about `Model/Validate.lean`.
+
+The model's `validate` and `append` *run the control flow regenerated from the working tree*
+(`Gen.ValidateFlow.columnRule`, `.top`, `.excessAgainst`, `.appendSteps`).  Part 1 proves that this flow is
+the statement's (`validateSpec`, `Conforms`); a change of the order of the checks, of a guard, of an
+early `continue`, of what the keys are compared with, or of the order of the statements of `append`
+breaks a theorem of part 1 by name.  Parts 2–4 are the clauses of the property for every schema, record
+and history; the concrete facts about the type table are proved against the generated tables.
 -/
 namespace C05
 open Validate
 
-def keys (r : Record) : List String := r.map (·.1)
+/-! ## 1. the generated control flow is the statement's -/
 
-/-- The four clauses of the statement. -/
-def Conforms (s : List Column) (r : Record) : Prop :=
-  (∀ k ∈ keys r, k ∈ names s)
-  ∧ (∀ c ∈ s, lookup c.name r ≠ none)
-  ∧ (∀ c ∈ s, lookup c.name r = some none → c.nullable = true)
-  ∧ (∀ c ∈ s, ∀ cls ty, lookup c.name r = some (some cls) → c.type = some ty → isInstance cls ty = true)
+/-- The loop body of `validate`, as the source has it now, is the three rules of the statement: a column
+that is absent is reported missing and nothing else; a null is reported exactly when the column is not
+nullable — also for untyped columns; a non-null value is reported exactly when the column is typed and
+`isinstance` fails. -/
+theorem columnRule_spec (p n nl t i : Bool) :
+    Gen.ValidateFlow.columnRule p n nl t i =
+      if !p then [kMissing] else if n then (if nl then [] else [kNull]) else if t && !i then [kWrong] else [] := by
+  cases p <;> cases n <;> cases nl <;> cases t <;> cases i <;> rfl
 
-theorem excessKeys_nil_iff (s : List Column) (r : Record) :
-    excessKeys s r = [] ↔ ∀ k ∈ keys r, k ∈ names s := by
-  simp [excessKeys, keys, List.filter_eq_nil_iff]
+/-- The top level of `validate`, as the source has it now: a non-mapping is refused first; excess keys
+raise at once, before and instead of the collected errors; the collected errors raise together. -/
+theorem top_spec (x e : Bool) :
+    Gen.ValidateFlow.top false x e = (if x then .excess else if e then .invalid else .ok)
+    ∧ Gen.ValidateFlow.top true x e = .typeError := by
+  cases x <;> cases e <;> exact ⟨rfl, rfl⟩
 
-theorem filter_map_nil_iff (s : List Column) (p : Column → Bool) :
-    (s.filter p).map (·.name) = [] ↔ ∀ c ∈ s, p c = false := by
-  simp [List.filter_eq_nil_iff]
+/-- The record's keys are compared with the column names — not with names and aliases. -/
+theorem excess_against_names : Gen.ValidateFlow.excessAgainst = "name" := by decide
+
+/-- `validate` reads nothing but declared dataclass fields of the schema and of its columns (through
+properties and helper methods): no cached property, no memoising decorator, no undeclared attribute, no
+write to `self` or to a module global.  This is what makes the outcome a function of the schema as it is
+now (part 4). -/
+theorem no_hidden_state :
+    Gen.ValidateFlow.hiddenState = []
+    ∧ (∀ a ∈ Gen.ValidateFlow.schemaReads, a ∈ Gen.ValidateFlow.schemaFields)
+    ∧ (∀ a ∈ Gen.ValidateFlow.columnReads, a ∈ Gen.ValidateFlow.columnFields) := by decide
+
+theorem excessKeys_eq (s : List Column) (r : Record) : excessKeys s r = excessNames s r := by
+  simp [excessKeys, excessNames, knownKeys, excess_against_names]
+
+/-- Per column, the generated rule appends to exactly the lists the statement's three predicates name. -/
+theorem rule_flags (r : Record) (c : Column) :
+    decide (kMissing ∈ ruleOf r c) = isMissing r c
+    ∧ decide (kNull ∈ ruleOf r c) = isNullViolation r c
+    ∧ decide (kWrong ∈ ruleOf r c) = isWrongType r c
+    ∧ decide (ruleOf r c ≠ []) = (isMissing r c || isNullViolation r c || isWrongType r c) := by
+  unfold ruleOf
+  rw [columnRule_spec]
+  unfold atomPresent atomIsNone atomTyped atomInst isMissing isNullViolation isWrongType
+  cases hl : lookup c.name r with
+  | none => simp [kMissing, kNull, kWrong]
+  | some v =>
+    cases v with
+    | none => cases c.nullable <;> simp [kMissing, kNull, kWrong]
+    | some cls =>
+      cases ht : c.type with
+      | none => simp [kMissing, kNull, kWrong]
+      | some ty => cases hi : isInstance cls ty <;> simp [kMissing, kNull, kWrong]
+
+/-- **Refinement**: `validate` as the working tree has it (generated flow) computes the statement. -/
+theorem validate_refines_spec (s : List Column) (r : Record) : validate s r = validateSpec s r := by
+  have hm : collect kMissing s r = (s.filter (isMissing r)).map (·.name) := by
+    unfold collect; congr 1; apply List.filter_congr; intro c _; exact (rule_flags r c).1
+  have hn : collect kNull s r = (s.filter (isNullViolation r)).map (·.name) := by
+    unfold collect; congr 1; apply List.filter_congr; intro c _; exact (rule_flags r c).2.1
+  have hw : collect kWrong s r = (s.filter (isWrongType r)).map (·.name) := by
+    unfold collect; congr 1; apply List.filter_congr; intro c _; exact (rule_flags r c).2.2.1
+  have hany : (s.any fun c => decide (ruleOf r c ≠ [])) = true ↔
+      ¬ ((s.filter (isMissing r)).map (·.name) = [] ∧ (s.filter (isNullViolation r)).map (·.name) = []
+          ∧ (s.filter (isWrongType r)).map (·.name) = []) := by
+    simp only [List.any_eq_true, (rule_flags r _).2.2.2, Bool.or_eq_true, Spec.filter_map_nil_iff]
+    constructor
+    · rintro ⟨c, hc, h⟩ ⟨h1, h2, h3⟩
+      rcases h with (h | h) | h
+      · rw [h1 c hc] at h; cases h
+      · rw [h2 c hc] at h; cases h
+      · rw [h3 c hc] at h; cases h
+    · intro h
+      refine Classical.byContradiction fun hne => h ⟨?_, ?_, ?_⟩
+      · intro c hc
+        cases hb : isMissing r c with
+        | false => rfl
+        | true => exact absurd ⟨c, hc, Or.inl (Or.inl hb)⟩ hne
+      · intro c hc
+        cases hb : isNullViolation r c with
+        | false => rfl
+        | true => exact absurd ⟨c, hc, Or.inl (Or.inr hb)⟩ hne
+      · intro c hc
+        cases hb : isWrongType r c with
+        | false => rfl
+        | true => exact absurd ⟨c, hc, Or.inr hb⟩ hne
+  unfold validate validateSpec
+  rw [excessKeys_eq, hm, hn, hw, (top_spec _ _).1]
+  by_cases hx : excessNames s r = []
+  · by_cases he : (s.any fun c => decide (ruleOf r c ≠ [])) = true
+    · have h3 := hany.mp he
+      rw [he]; simp only [hx, h3, ne_eq, not_true_eq_false, decide_false, Bool.false_eq_true, ↓reduceIte]
+    · have hf : (s.any fun c => decide (ruleOf r c ≠ [])) = false := by simpa using he
+      have h3 := Classical.not_not.mp (fun h => he (hany.mpr h))
+      rw [hf]; simp only [hx, h3, ne_eq, not_true_eq_false, decide_false, Bool.false_eq_true, and_self, ↓reduceIte]
+  · simp [hx]
+
+/-! ## 2. validation: acceptance and error content -/
 
 /-- **Validation succeeds exactly when the record conforms** (keys all name columns, every column
 present, nulls only in nullable columns, every non-null value an instance of its column's class;
 untyped columns accept anything). -/
 theorem validate_ok_iff (s : List Column) (r : Record) : validate s r = .ok ↔ Conforms s r := by
-  unfold validate Conforms
-  by_cases hx : excessKeys s r = []
-  · have hk := (excessKeys_nil_iff s r).mp hx
-    simp only [hx, ne_eq, not_true_eq_false, if_false]
-    constructor
-    · intro h
-      split at h
-      · rename_i hc
-        obtain ⟨hm, hn, hw⟩ := hc
-        rw [filter_map_nil_iff] at hm hn hw
-        refine ⟨hk, ?_, ?_, ?_⟩
-        · intro c hc hnone
-          have := hm c hc
-          simp [isMissing, hnone] at this
-        · intro c hc hnull
-          have := hn c hc
-          simpa [isNullViolation, hnull] using this
-        · intro c hc cls ty hl ht
-          have := hw c hc
-          simpa [isWrongType, hl, ht] using this
-      · cases h
-    · rintro ⟨_, hp, hn, hw⟩
-      have h1 : (s.filter (isMissing r)).map (·.name) = [] := by
-        rw [filter_map_nil_iff]; intro c hc
-        have := hp c hc
-        cases hl : lookup c.name r with
-        | none => exact absurd hl this
-        | some v => simp [isMissing, hl]
-      have h2 : (s.filter (isNullViolation r)).map (·.name) = [] := by
-        rw [filter_map_nil_iff]; intro c hc
-        cases hl : lookup c.name r with
-        | none => simp [isNullViolation, hl]
-        | some v =>
-          cases v with
-          | none => simp [isNullViolation, hl, hn c hc hl]
-          | some cls => simp [isNullViolation, hl]
-      have h3 : (s.filter (isWrongType r)).map (·.name) = [] := by
-        rw [filter_map_nil_iff]; intro c hc
-        cases hl : lookup c.name r with
-        | none => simp [isWrongType, hl]
-        | some v =>
-          cases v with
-          | none => simp [isWrongType, hl]
-          | some cls =>
-            cases ht : c.type with
-            | none => simp [isWrongType, hl, ht]
-            | some ty => simp [isWrongType, hl, ht, hw c hc cls ty hl ht]
-      simp [h1, h2, h3]
-  · simp only [ne_eq, hx, not_false_eq_true, if_true]
-    constructor
-    · intro h; cases h
-    · rintro ⟨hk, _⟩
-      exact absurd ((excessKeys_nil_iff s r).mpr hk) hx
+  rw [validate_refines_spec]; exact Spec.validateSpec_ok_iff s r
 
-/-- The excess-keys error is raised exactly when some key is not a column, and it names precisely
-those keys. -/
+/-- The excess-keys error is raised exactly when some key is not a column name — whatever else is wrong
+with the record — and it names precisely those keys. -/
 theorem excess_exact (s : List Column) (r : Record) :
     ((∃ ks, validate s r = .excess ks) ↔ ∃ k ∈ keys r, k ∉ names s)
     ∧ ∀ ks, validate s r = .excess ks → ∀ k, k ∈ ks ↔ (k ∈ keys r ∧ k ∉ names s) := by
-  have hmem : ∀ k, k ∈ excessKeys s r ↔ (k ∈ keys r ∧ k ∉ names s) := by
-    intro k; simp [excessKeys, keys]
-  constructor
-  · constructor
-    · rintro ⟨ks, h⟩
-      unfold validate at h
-      by_cases hx : excessKeys s r = []
-      · simp only [hx, ne_eq, not_true_eq_false, if_false] at h
-        split at h <;> cases h
-      · obtain ⟨k, hk⟩ := List.exists_mem_of_ne_nil _ hx
-        exact ⟨k, ((hmem k).mp hk).1, ((hmem k).mp hk).2⟩
-    · rintro ⟨k, hk1, hk2⟩
-      have hx : excessKeys s r ≠ [] := by
-        intro h
-        have : k ∈ excessKeys s r := (hmem k).mpr ⟨hk1, hk2⟩
-        rw [h] at this; cases this
-      exact ⟨excessKeys s r, by simp [validate, hx]⟩
-  · intro ks h k
-    unfold validate at h
-    by_cases hx : excessKeys s r = []
-    · simp only [hx, ne_eq, not_true_eq_false, if_false] at h
-      split at h <;> cases h
-    · simp only [ne_eq, hx, not_false_eq_true, if_true, Outcome.excess.injEq] at h
-      rw [← h]; exact hmem k
+  rw [validate_refines_spec]; exact Spec.excess_exact s r
 
 /-- The validation error names precisely the offending columns — also when several rules fire:
 `missing` are exactly the absent columns, `nulls` exactly the non-nullable columns holding null,
@@ -125,66 +135,97 @@ theorem invalid_exact (s : List Column) (r : Record) (m n w : List String)
           ∧ isInstance cls ty = false)
     ∧ (m ≠ [] ∨ n ≠ [] ∨ w ≠ [])
     ∧ (∀ k ∈ keys r, k ∈ names s) := by
-  unfold validate at h
-  by_cases hx : excessKeys s r = []
+  rw [validate_refines_spec] at h; exact Spec.invalid_exact s r m n w h
+
+/-- Every combination of the four kinds of offence is decided: validation of a mapping ends in exactly
+one of `ok`, an excess-keys error (with at least one key) or a validation error — never anything else. -/
+theorem outcome_total (s : List Column) (r : Record) :
+    validate s r = .ok ∨ (∃ ks, ks ≠ [] ∧ validate s r = .excess ks) ∨ (∃ m n w, validate s r = .invalid m n w) := by
+  rw [validate_refines_spec]
+  unfold validateSpec
+  by_cases hx : excessNames s r = []
+  · simp only [hx, ne_eq, not_true_eq_false, if_false]
+    split
+    · exact Or.inl rfl
+    · exact Or.inr (Or.inr ⟨_, _, _, rfl⟩)
+  · exact Or.inr (Or.inl ⟨excessNames s r, hx, by simp [hx]⟩)
+
+/-- The validation error (as opposed to the excess-keys error) is raised exactly when all keys name
+columns and the record does not conform. -/
+theorem invalid_iff (s : List Column) (r : Record) :
+    (∃ m n w, validate s r = .invalid m n w) ↔ ((∀ k ∈ keys r, k ∈ names s) ∧ ¬ Conforms s r) := by
+  constructor
+  · rintro ⟨m, n, w, h⟩
+    refine ⟨(invalid_exact s r m n w h).2.2.2.2, fun hc => ?_⟩
+    rw [(validate_ok_iff s r).mpr hc] at h; cases h
+  · rintro ⟨hk, hnc⟩
+    rcases outcome_total s r with h | ⟨ks, hne, h⟩ | h
+    · exact absurd ((validate_ok_iff s r).mp h) hnc
+    · obtain ⟨k, hk1, hk2⟩ := ((excess_exact s r).1).mp ⟨ks, h⟩
+      exact absurd (hk k hk1) hk2
+    · exact h
+
+/-- Each list of the validation error is in schema order and names a column at most as often as the
+schema lists it: it is a sublist of the column names. -/
+theorem invalid_lists_in_column_order (s : List Column) (r : Record) (m n w : List String)
+    (h : validate s r = .invalid m n w) :
+    m.Sublist (names s) ∧ n.Sublist (names s) ∧ w.Sublist (names s) := by
+  rw [validate_refines_spec] at h
+  unfold validateSpec at h
+  by_cases hx : excessNames s r = []
   · simp only [hx, ne_eq, not_true_eq_false, if_false] at h
     split at h
     · cases h
-    · rename_i hne
-      simp only [Outcome.invalid.injEq] at h
+    · simp only [Outcome.invalid.injEq] at h
       obtain ⟨rfl, rfl, rfl⟩ := h
-      refine ⟨?_, ?_, ?_, ?_, (excessKeys_nil_iff s r).mp hx⟩
-      · intro x
-        simp only [List.mem_map, List.mem_filter, isMissing, Option.isNone_iff_eq_none]
-        constructor
-        · rintro ⟨c, ⟨hc, hl⟩, rfl⟩; exact ⟨c, hc, rfl, hl⟩
-        · rintro ⟨c, hc, rfl, hl⟩; exact ⟨c, ⟨hc, hl⟩, rfl⟩
-      · intro x
-        simp only [List.mem_map, List.mem_filter]
-        constructor
-        · rintro ⟨c, ⟨hc, hl⟩, rfl⟩
-          refine ⟨c, hc, rfl, ?_⟩
-          unfold isNullViolation at hl
-          split at hl
-          · rename_i heq; exact ⟨heq, by simpa using hl⟩
-          · cases hl
-        · rintro ⟨c, hc, rfl, hl, hn⟩
-          exact ⟨c, ⟨hc, by simp [isNullViolation, hl, hn]⟩, rfl⟩
-      · intro x
-        simp only [List.mem_map, List.mem_filter]
-        constructor
-        · rintro ⟨c, ⟨hc, hl⟩, rfl⟩
-          refine ⟨c, hc, rfl, ?_⟩
-          unfold isWrongType at hl
-          split at hl
-          · rename_i cls ty h1 h2; exact ⟨cls, ty, h1, h2, by simpa using hl⟩
-          · cases hl
-        · rintro ⟨c, hc, rfl, cls, ty, hl, ht, hi⟩
-          exact ⟨c, ⟨hc, by simp [isWrongType, hl, ht, hi]⟩, rfl⟩
-      · by_cases h1 : (s.filter (isMissing r)).map (·.name) = []
-        · by_cases h2 : (s.filter (isNullViolation r)).map (·.name) = []
-          · right; right; intro h3; exact hne ⟨h1, h2, h3⟩
-          · right; left; exact h2
-        · left; exact h1
+      exact ⟨List.Sublist.map _ List.filter_sublist, List.Sublist.map _ List.filter_sublist,
+        List.Sublist.map _ List.filter_sublist⟩
   · simp [hx] at h
+
+/-- A column breaks at most one of the three rules. -/
+theorem rules_exclusive (r : Record) (c : Column) :
+    ¬ (isMissing r c = true ∧ isNullViolation r c = true)
+    ∧ ¬ (isMissing r c = true ∧ isWrongType r c = true)
+    ∧ ¬ (isNullViolation r c = true ∧ isWrongType r c = true) := by
+  unfold isMissing isNullViolation isWrongType
+  cases lookup c.name r with
+  | none => simp
+  | some v => cases v <;> simp
+
+/-! ## 3. append -/
+
+/-- **`DataFrame.append`, with its statements in the order the source has them now**, stores the row
+exactly when validation succeeds and the row can be sized; whenever it raises, the rows are as before. -/
+theorem append_spec (s : List Column) (rows : List (List Value)) (r : Record) (z : Bool) :
+    append s rows r z =
+      if validate s r = .ok then (if z then (rows ++ [rowOf s r], .ok) else (rows, .unsizable))
+      else (rows, .rejected (validate s r)) := by
+  by_cases h : validate s r = .ok <;> cases z <;>
+    simp [append, Gen.ValidateFlow.appendSteps, runSteps, h]
 
 /-- An accepted record adds exactly one row, with the values in column order. -/
 theorem append_ok (s : List Column) (rows : List (List Value)) (r : Record) (h : validate s r = .ok) :
-    append s rows r = (rows ++ [rowOf s r], .ok)
+    append s rows r true = (rows ++ [rowOf s r], .ok)
     ∧ (rowOf s r).length = s.length
     ∧ ∀ (i : Nat) (c : Column), s[i]? = some c → (rowOf s r)[i]? = some ((lookup c.name r).getD none) := by
-  refine ⟨by simp [append, h], by simp [rowOf], ?_⟩
+  refine ⟨by simp [append_spec, h], by simp [rowOf], ?_⟩
   intro i c hc
   simp [rowOf, hc]
 
-/-- A rejected record raises and leaves the frame's rows unchanged. -/
-theorem append_rejected_unchanged (s : List Column) (rows : List (List Value)) (r : Record)
-    (h : validate s r ≠ .ok) : (append s rows r).1 = rows ∧ (append s rows r).2 = validate s r := by
-  unfold append
-  cases hv : validate s r with
-  | ok => exact absurd hv h
-  | excess ks => simp
-  | invalid m n w => simp
+/-- Append succeeds exactly when the record validates and the row can be sized. -/
+theorem append_ok_iff (s : List Column) (rows : List (List Value)) (r : Record) (z : Bool) :
+    (append s rows r z).2 = .ok ↔ (validate s r = .ok ∧ z = true) := by
+  rw [append_spec]
+  by_cases h : validate s r = .ok <;> cases z <;> simp [h]
+
+/-- A rejected record — or one whose row cannot be sized — raises and leaves the frame's rows unchanged;
+a rejected record raises the validation outcome. -/
+theorem append_rejected_unchanged (s : List Column) (rows : List (List Value)) (r : Record) (z : Bool)
+    (h : (append s rows r z).2 ≠ .ok) :
+    (append s rows r z).1 = rows
+    ∧ (validate s r ≠ .ok → (append s rows r z).2 = .rejected (validate s r)) := by
+  rw [append_spec] at h ⊢
+  by_cases hv : validate s r = .ok <;> cases z <;> simp_all
 
 theorem mem_zip_map_self {β γ : Type} (l : List β) (f : β → γ) (c : β) (v : γ)
     (h : (c, v) ∈ l.zip (l.map f)) : v = f c := by
@@ -196,7 +237,7 @@ theorem mem_zip_map_self {β γ : Type} (l : List β) (f : β → γ) (c : β) (
     · rfl
     · exact ih h
 
-/-- The row stored for a conforming record conforms to the schema (duplicate-free column names). -/
+/-- The row stored for a conforming record conforms to the schema. -/
 theorem rowOf_conforms (s : List Column) (r : Record) (h : validate s r = .ok) :
     rowConforms s (rowOf s r) = true := by
   obtain ⟨_, hp, hn, hw⟩ := (validate_ok_iff s r).mp h
@@ -215,33 +256,119 @@ theorem rowOf_conforms (s : List Column) (r : Record) (h : validate s r = .ok) :
       | none => simp
       | some ty => simp [hw c hc cls ty hl ht]
 
+/-- The accepted records of a history: those that validate and whose row can be sized. -/
+def accepted (s : List Column) (rs : List (Record × Bool)) : List (Record × Bool) :=
+  rs.filter fun p => decide (validate s p.1 = .ok) && p.2
+
 /-- After any sequence of appends the frame holds its original rows followed by exactly the rows
 of the accepted records, in order; and every stored row conforms when the original ones did. -/
-theorem appends_invariant (s : List Column) (rows : List (List Value)) (rs : List Record) :
-    appends s rows rs = rows ++ (rs.filter fun r => decide (validate s r = .ok)).map (rowOf s)
+theorem appends_invariant (s : List Column) (rows : List (List Value)) (rs : List (Record × Bool)) :
+    appends s rows rs = rows ++ (accepted s rs).map (fun p => rowOf s p.1)
     ∧ ((∀ row ∈ rows, rowConforms s row = true) → ∀ row ∈ appends s rows rs, rowConforms s row = true) := by
   induction rs generalizing rows with
-  | nil => simp [appends]
-  | cons r rs ih =>
-    by_cases h : validate s r = .ok
-    · have ha := (append_ok s rows r h).1
+  | nil => simp [appends, accepted]
+  | cons p rs ih =>
+    obtain ⟨r, z⟩ := p
+    by_cases h : validate s r = .ok ∧ z = true
+    · obtain ⟨hv, rfl⟩ := h
+      have ha : append s rows r true = (rows ++ [rowOf s r], .ok) := (append_ok s rows r hv).1
       obtain ⟨ih1, ih2⟩ := ih (rows ++ [rowOf s r])
       refine ⟨?_, ?_⟩
-      · simp [appends, ha, ih1, h]
+      · simp [appends, ha, ih1, accepted, hv]
       · intro hall row hrow
         simp only [appends, ha] at hrow
         apply ih2 _ row hrow
         intro row' hr'
         rcases List.mem_append.mp hr' with hr' | hr'
         · exact hall row' hr'
-        · simp only [List.mem_singleton] at hr'; subst hr'; exact rowOf_conforms s r h
-    · have ha := (append_rejected_unchanged s rows r h).1
+        · simp only [List.mem_singleton] at hr'; subst hr'; exact rowOf_conforms s r hv
+    · have hne : (append s rows r z).2 ≠ .ok := fun hk => h ((append_ok_iff s rows r z).mp hk)
+      have ha := (append_rejected_unchanged s rows r z hne).1
       obtain ⟨ih1, ih2⟩ := ih rows
+      have hf : (decide (validate s r = .ok) && z) = false := by
+        cases z <;> simp_all
       refine ⟨?_, ?_⟩
-      · simp [appends, ha, ih1, h]
+      · simp [appends, ha, ih1, accepted, hf]
       · intro hall row hrow
         simp only [appends, ha] at hrow
         exact ih2 hall row hrow
+
+/-- The results the caller sees, one per append: `ok` exactly for the accepted records. -/
+theorem appendResults_exact (s : List Column) (rows : List (List Value)) (rs : List (Record × Bool)) :
+    (appendResults s rows rs).length = rs.length
+    ∧ ∀ (i : Nat) (p : Record × Bool) (a : AppendResult), rs[i]? = some p → (appendResults s rows rs)[i]? = some a →
+        (a = .ok ↔ (validate s p.1 = .ok ∧ p.2 = true)) := by
+  induction rs generalizing rows with
+  | nil => simp [appendResults]
+  | cons p rs ih =>
+    obtain ⟨r, z⟩ := p
+    obtain ⟨ih1, ih2⟩ := ih (append s rows r z).1
+    refine ⟨by simp [appendResults, ih1], ?_⟩
+    intro i p a hp ha
+    cases i with
+    | zero =>
+      simp only [List.getElem?_cons_zero, Option.some.injEq] at hp
+      simp only [appendResults, List.getElem?_cons_zero, Option.some.injEq] at ha
+      subst hp; subst ha
+      exact append_ok_iff s rows r z
+    | succ j =>
+      simp only [List.getElem?_cons_succ] at hp
+      simp only [appendResults, List.getElem?_cons_succ] at ha
+      exact ih2 j p a hp ha
+
+/-! ## 4. one schema object used many times: the outcome depends on the schema as it is now -/
+
+/-- Observations accumulate: what a program sees at its last step is `observe` on the column list the
+earlier steps left behind. -/
+theorem run_snoc (s : List Column) (pre : List Op) (op : Op) :
+    run s (pre ++ [op]) = run s pre ++ (observe (exec s pre) op).toList := by
+  induction pre generalizing s with
+  | nil => simp [run, exec]
+  | cons o os ih => simp [run, exec, ih]
+
+/-- **History independence.**  After *any* history of validations, appends through bound frames and
+mutations of the column list (`columns.append`, `insert`, `del`, `pop_column`, assignment, in-place
+change of a column), validating a record gives the statement's verdict on the schema *as it is at
+that moment*: it succeeds exactly when the record conforms to the current columns. -/
+theorem session_validate_now (s : List Column) (pre : List Op) (r : Record) :
+    run s (pre ++ [.validate r]) = run s pre ++ [.outcome (validate (exec s pre) r)]
+    ∧ (validate (exec s pre) r = .ok ↔ Conforms (exec s pre) r) := by
+  refine ⟨by simp [run_snoc, observe], validate_ok_iff _ _⟩
+
+/-- Two histories that leave the same column list behind cannot be told apart by anything done next —
+a schema that was used before it was changed answers like one that was built in its final shape. -/
+theorem history_independent (s₁ s₂ : List Column) (h₁ h₂ : List Op) (op : Op)
+    (h : exec s₁ h₁ = exec s₂ h₂) :
+    ∃ o, run s₁ (h₁ ++ [op]) = run s₁ h₁ ++ o ∧ run s₂ (h₂ ++ [op]) = run s₂ h₂ ++ o := by
+  exact ⟨(observe (exec s₁ h₁) op).toList, run_snoc s₁ h₁ op, by rw [run_snoc, h]⟩
+
+/-- Validating and appending never change the schema; each mutation changes the column list as the
+list operation says (`pop_column` removes the first column of that name, and nothing when there is none). -/
+theorem exec_effects (s : List Column) (r : Record) (c : Column) (i : Nat) (n : String) (cs : List Column)
+    (init : List (List Value)) (rs : List (Record × Bool)) :
+    exec s [.validate r] = s ∧ exec s [.frame init rs] = s
+    ∧ exec s [.addCol c] = s ++ [c] ∧ exec s [.replaceCols cs] = cs
+    ∧ exec s [.delCol i] = s.eraseIdx i ∧ exec s [.insertCol i c] = s.insertIdx i c
+    ∧ exec s [.setCol i c] = s.set i c
+    ∧ exec (c :: s) [.popCol c.name] = s
+    ∧ (n ∉ names s → exec s [.popCol n] = s) := by
+  refine ⟨rfl, rfl, rfl, rfl, rfl, rfl, rfl, by simp [exec, mutate], ?_⟩
+  intro hn
+  simp only [exec, mutate]
+  apply List.eraseP_of_forall_not
+  intro c hc hcn
+  exact hn (by simp only [names, List.mem_map]; exact ⟨c, hc, by simpa using hcn⟩)
+
+/-- A frame bound to the schema after any history accepts exactly the records that conform to the
+columns as they are then, stores their values in that column order, and leaves its rows alone
+otherwise. -/
+theorem session_frame_now (s : List Column) (pre : List Op) (init : List (List Value)) (rs : List (Record × Bool)) :
+    run s (pre ++ [.frame init rs]) =
+      run s pre ++ [.frame (init ++ (accepted (exec s pre) rs).map (fun p => rowOf (exec s pre) p.1))
+                            (appendResults (exec s pre) init rs)] := by
+  simp [run_snoc, observe, (appends_invariant (exec s pre) init rs).1]
+
+/-! ## 5. the type table -/
 
 /-- Facts about the generated type table: the subclass cases the property names. -/
 theorem table_facts :
@@ -256,11 +383,34 @@ theorem table_facts :
     ∧ isInstance "dict" "STRUCT" = true ∧ isInstance "timedelta" "INTERVAL" = true
     ∧ isInstance "time" "TIME" = true ∧ isInstance "float" "DOUBLE" = true := by decide
 
-/-- Non-vacuity: a record that breaks three rules at once, and an accepted one. -/
+/-- Subclasses defined by users and by numpy: a subclass instance is accepted, a look-alike is not. -/
+theorem table_facts_subclasses :
+    isInstance "MyInt" "INTEGER" = true ∧ isInstance "MyStr" "VARCHAR" = true
+    ∧ isInstance "MyDateTime" "DATE" = true ∧ isInstance "MyDateTime" "TIMESTAMP" = true
+    ∧ isInstance "MyDict" "STRUCT" = true ∧ isInstance "OrderedDict" "STRUCT" = true
+    ∧ isInstance "np.float64" "DOUBLE" = true ∧ isInstance "np.int64" "INTEGER" = false
+    ∧ isInstance "np.bool" "BOOLEAN" = false ∧ isInstance "bytearray" "BLOB" = false
+    ∧ isInstance "frozenset" "ARRAY" = false ∧ isInstance "np.ndarray" "ARRAY" = false
+    ∧ isInstance "bytes" "JSONB" = true ∧ isInstance "dict" "JSONB" = false := by decide
+
+/-- Non-vacuity: a record that breaks three rules at once, an accepted one, an excess key that hides two
+other offences, an alias that is an excess key; and a schema object whose verdict follows its mutations. -/
 example :
-    let s : List Column := [⟨"a", some "INTEGER", false⟩, ⟨"b", some "VARCHAR", true⟩, ⟨"c", none, false⟩]
+    let s : List Column := [⟨"a", some "INTEGER", false, ["id"]⟩, ⟨"b", some "VARCHAR", true, []⟩, ⟨"c", none, false, []⟩]
     validate s [("a", some "str"), ("c", none)] = .invalid ["b"] ["c"] ["a"]
     ∧ validate s [("c", some "list"), ("b", none), ("a", some "bool")] = .ok
-    ∧ validate s [("a", some "int"), ("zz", none)] = .excess ["zz"] := by decide
+    ∧ validate s [("a", some "str"), ("zz", none)] = .excess ["zz"]
+    ∧ validate s [("a", some "int"), ("b", none), ("c", some "int"), ("id", some "int")] = .excess ["id"]
+    ∧ run s [.validate [("a", some "int"), ("b", none), ("c", some "int"), ("d", some "float")],
+             .addCol ⟨"d", some "DOUBLE", true, []⟩,
+             .validate [("a", some "int"), ("b", none), ("c", some "int"), ("d", some "float")],
+             .popCol "b",
+             .validate [("a", some "int"), ("b", none), ("c", some "int"), ("d", some "float")],
+             .setCol 0 ⟨"a", some "VARCHAR", false, []⟩,
+             .frame [] [([("a", some "int"), ("c", some "int"), ("d", none)], true),
+                        ([("a", some "str"), ("c", some "int"), ("d", none)], true),
+                        ([("a", some "str"), ("c", some "int"), ("d", none)], false)]]
+        = [.outcome (.excess ["d"]), .outcome .ok, .outcome (.excess ["b"]),
+           .frame [[some "str", some "int", none]] [.rejected (.invalid [] [] ["a"]), .ok, .unsizable]] := by decide
 
 end C05
